@@ -1,7 +1,7 @@
 #!/bin/bash
 # driver/run_all.sh <tier> <seed> [ids...] : run the registered checks one after another, one summary line each
 TIER=${1:-quick}; SEED=${2:-1}; shift 2
-cd /verif || exit 2
+cd "$(dirname "$(readlink -f "$0")")/.." || exit 2
 IDS="$@"; [ -z "$IDS" ] && IDS=$(cat driver/built.txt)
 for id in $IDS; do
   t0=$(date +%s)
